@@ -134,9 +134,23 @@ def run_behaviour(adapter, root, steps, check_from=0, fobs=None):
                 return {"diverged_at": 0, "first_difference": d, "behaviour": [], "action": {"n": "Init"},
                         "expected": fobs, "observed": adapter.project(world)}
         for i, e in enumerate(steps):
-            adapter.apply(world, e["act"])
+            # an exception escaping a legal operation (or a query) of the real code is a divergence, not a harness failure
+            try:
+                adapter.apply(world, e["act"])
+                got = adapter.project(world) if i >= check_from else None
+            except Exception as ex:  # noqa: BLE001
+                import traceback
+
+                return {
+                    "diverged_at": i + 1,
+                    "first_difference": ".exception: %s escaped from the real code: %s" % (type(ex).__name__, str(ex)[:300]),
+                    "root": root,
+                    "behaviour": [s["act"] for s in steps[: i + 1]],
+                    "action": e["act"],
+                    "expected": e["obs"],
+                    "observed": {"exception": traceback.format_exc()[-2000:]},
+                }
             if i >= check_from:
-                got = adapter.project(world)
                 d = diff(e["obs"], got)
                 if d:
                     return {
